@@ -206,6 +206,7 @@ def oracleFor (prop : String) (c : Cfg) (t : Spec.Trace) : Option Bool :=
   | "C04" => some (Spec.oracleC04 (kindOf c) c.cap t)
   | "C13" => some (Spec.oracleC13 (kindOf c) c.cap c.ttl c.tti c.params.weigh t)
   | "C12" => some (Spec.oracleC12 (kindOf c) c.cap c.ttl c.tti c.params.weigh Gen.UNSYNC_EVICTION_BATCH_SIZE t)
+  | "C11" => some (Spec.oracleC11 t)
   | "C03" => some (Spec.oracleC03 (kindOf c) c.cap c.ttl c.tti c.params.weigh t)
   | _ => none
 
